@@ -267,6 +267,49 @@ def resolve {α σ : Type} (status : α → Option σ) (cands : List α) (fallba
     | some f => .fallback f
     | none => .error
 
+/-! ### the class of a failed attempt
+
+`resolveStatusResponse` fails in different ways: the dial is refused, the dial runs into `dialTimeout` (an error that
+`errors.Is(…, context.DeadlineExceeded)`), the backend closes or sends garbage, the client's context is cancelled, or a
+failure cached earlier is replayed.  `tryBackends` looks at none of this: `if err != nil { …; continue }`. -/
+
+inductive ErrClass where
+  | refused      -- connection refused
+  | timeout      -- dial / context deadline exceeded
+  | eof          -- connection closed or undecodable answer
+  | canceled     -- the pinging client's context is done
+  | other
+  deriving DecidableEq, Repr
+
+inductive Attempt (β : Type) where
+  | ok (b : β)
+  | fail (c : ErrClass)
+  deriving Repr
+
+def Attempt.toOption {β : Type} : Attempt β → Option β
+  | .ok b => some b
+  | .fail _ => none
+
+/-- `tryBackends` over classified attempts.  `stop` is NOT in the code (it is constantly false there): it describes the
+    family of variants that give up walking the candidates after a failure of some class. -/
+def tryBackendsE {α β : Type} (stop : ErrClass → Bool) (try_ : α → Attempt β) : List α → Option (α × β) × Nat
+  | [] => (none, 0)
+  | a :: rest =>
+    match try_ a with
+    | .ok b => (some (a, b), 1)
+    | .fail c => if stop c then (none, 1) else let (r, n) := tryBackendsE stop try_ rest; (r, n + 1)
+
+/-- the code: no failure class ends the walk -/
+def neverStop : ErrClass → Bool := fun _ => false
+
+def resolveE {α σ : Type} (stop : ErrClass → Bool) (status : α → Attempt σ) (cands : List α) (fallback : Option σ) :
+    Outcome σ :=
+  match (tryBackendsE stop status cands).1 with
+  | some (_, s) => .backend s
+  | none => match fallback with
+    | some f => .fallback f
+    | none => .error
+
 /-! ### facts over `calls` lists of tools/gofacts -/
 
 /-- is `c.mu` held when the n-th call of the flat list is made (flat scan: Lock sets, Unlock clears) -/
